@@ -46,6 +46,8 @@ TRUSTED_BASE = [
 ASSUMPTIONS = [
     "well-formed for text (WfText) excludes values that dnspython accepts from wire but whose presentation form cannot express them: an empty trailing hex/base64 blob (digest, key, signature, certificate, fingerprint, HIP hit/key, TKEY key, TSIG mac, NSEC3 next), KEY with NOKEY flags and key data, type bitmaps with an all-zero or zero-terminated window or with bit 0 of window 0, WKS bitmaps with trailing zero octets; these are counted (histogram degenerate.*), never reported",
     "OPT has no master-file presentation format (no from_text); only `to_text never raises` is checked for it",
+    "semantic equality of a round trip is `to_wire(origin)` equality (names spelled with the origin's own case); exact equality (== and same relativity of every name) is demanded in the configurations that do not rewrite names; relativization against an origin that differs from a name's suffix only in case is C01's reading (DESIGN §6), not generated here",
+    "base64 text that is not canonical (foreign characters, data after padding) is accepted liberally by base64.b64decode; such inputs are outside the model's strict codec and are skipped by the correspondence check (counted: corr.skip.noncanonical-base64); non-ASCII text in name fields (IDNA) and Unicode digits/spaces beyond Latin-1 are outside the model",
     "IDNA / non-ASCII name text, omit_final_dot, truncate_crypto (documented as lossy) are outside the property",
     "the legacy to_text(separator=...) keyword raises TypeError in dns/style.py (maps to a non-existent field); it is undocumented and outside the anchored files, so it is noted, not checked",
     "per-type proof status (proved / modelled / oracle-only) is listed in the evidence under coverage.type_status",
@@ -338,10 +340,11 @@ def eval_rt(ctx: Ctx, c: dict):
 
 
 def _loc_only_altitude_cm(rd, rd2):
+    """the two LOC records differ on the wire in the altitude field only, by one centimetre, the text value being the larger"""
     try:
-        return (rd.latitude == rd2.latitude and rd.longitude == rd2.longitude and rd.size == rd2.size
-                and rd.horizontal_precision == rd2.horizontal_precision and rd.vertical_precision == rd2.vertical_precision
-                and abs(rd.altitude - rd2.altitude) < 1.0 and int(rd.altitude) != int(rd2.altitude))
+        w1, w2 = rd.to_wire(), rd2.to_wire()
+        a1, a2 = struct.unpack("!I", w1[12:16])[0], struct.unpack("!I", w2[12:16])[0]
+        return w1[:12] == w2[:12] and abs(a1 - a2) == 1 and abs(rd.altitude - rd2.altitude) < 1e-3
     except Exception:
         return False
 
@@ -1043,9 +1046,53 @@ def replay(ctx: Ctx, obj: dict):
     return [f.what for f in ctx.failures]
 
 
+def _uncps(t):
+    return "" if t == "-" else "".join(chr(int(x)) for x in t.split(","))
+
+
+def impl_of_op(op: str) -> str:
+    """re-evaluate one protocol line on the implementation (used by --replay of a correspondence break)"""
+    ws = op.split(" ")
+    k = ws[0]
+    ctx = Ctx("C05", "quick", 1)
+    ctx.driver_ok = False
+    if k == "c05.parse":
+        from harness.core import dec_labels
+        tn, o, r, rt, text = ws[1], ws[2][2:], ws[3][2:], ws[4][3:], _uncps(ws[5])
+        origin = None if o == "none" else dns.name.Name(dec_labels(o))
+        relto = None if rt == "none" else dns.name.Name(dec_labels(rt))
+        if tn == "-":
+            rdclass, rdtype, tname = 1, 65280, "TYPE65280"
+        else:
+            rdclass, rdtype, tname, _ = BY_NAME[tn]
+        try:
+            rd = dns.rdata.from_text(rdclass, rdtype, text, origin=origin, relativize=(r == "1"), relativize_to=relto)
+        except dns.exception.DNSException:
+            return "err"
+        return "ok g " + hx(rd.data) if isinstance(rd, dns.rdata.GenericRdata) else "ok k " + dump(tname, rd)
+    prim = {"c05.ip4.ntoa": ("ip4.ntoa", "b"), "c05.ip6.ntoa": ("ip6.ntoa", "b"), "c05.ip4.aton": ("ip4.aton", "t"),
+            "c05.ip6.aton": ("ip6.aton", "t"), "c05.esc": ("esc", "b"), "c05.unesc": ("unesc", "t"), "c05.unescb": ("unescb", "t"),
+            "c05.lex": ("lex", "t"), "c05.ttl": ("ttl", "t"), "c05.hexdec": ("hexdec", "t")}
+    if k in prim:
+        name, arg = prim[k]
+        c = {"kind": "prim", "op": name}
+        c[arg] = ("" if ws[1] == "-" else ws[1]) if arg == "b" else _uncps(ws[1])
+        eval_prim(ctx, c)
+    elif k == "c05.int":
+        eval_prim(ctx, {"kind": "prim", "op": "int", "base": int(ws[1]), "t": _uncps(ws[2])})
+    elif k == "c05.wb":
+        eval_prim(ctx, {"kind": "prim", "op": "wb", "d": _uncps(ws[1]), "n": int(ws[2]), "sep": _uncps(ws[3])})
+    else:
+        return "(no implementation adapter for this op: re-run ./check C05)"
+    for (q, impl, _) in ctx.queue:
+        if q == op:
+            return impl
+    return ctx.queue[0][1] if ctx.queue else "?"
+
+
 LEVEL = {
-    "text": "Lean 4 theorems over executable models of the text codecs (dns/ipv4.py, dns/ipv6.py, dns.rdata._escapify, Token.unescape / unescape_to_bytes, the tokenizer, _wordbreak chunking, decimal/hex fields, the generic \\# form and the per-type to_text/from_text of the modelled record types): parse(print v) = v for every well-formed value, all 256 octets, every lossless style; tied to the code by a differential correspondence check on every modelled function, and completed by a direct round-trip oracle on the implementation over all 69 implemented record classes.",
-    "note": "Trusted: Lean kernel + propext/Classical.choice/Quot.sound; the statements in lean/Props/C05.lean; the correspondence harness and its generators; base64/base32/time codecs as external mutual inverses. Types without a model are covered by the oracle only (listed per type in the evidence).",
-    "technique": "Lean 4 proof (escape automata, tokenizer automaton, combinator round trips, IPv6 run selection) + model-vs-implementation correspondence + direct oracle",
+    "text": "Lean 4 theorems over executable models of the text codecs (dns/ipv4.py, dns/ipv6.py in full, dns.rdata._escapify, Token.unescape / unescape_to_bytes, the tokenizer as one automaton, _wordbreak chunking with concatenate_remaining_identifiers, Python int()/dns.ttl, hex and base64, name fields on top of the C01 model, the generic \\# form with its re-encode check, and a per-type schema table for 44 record classes): inet_aton(inet_ntoa(a)) = a for IPv4 and IPv6 (every zero-run / embedded-IPv4 shape), the quoted character-string round trip for all 256 octets on the octet path and below 0x80 on the code-point path (D03, with the counter-example proved), blob round trips under every lossless chunking style, the generic form of unknown and known types, and parse(print v) = v through dns.rdata.from_text for every schema type whose field kinds have a lemma (41 classes). Tied to the code by a differential correspondence check on every modelled function (print and parse direction, malformed streams) and by constants/tables regenerated from the working tree; completed by a direct round-trip / totality / encodability oracle on the implementation over all 69 implemented record classes.",
+    "note": "Trusted: Lean kernel + propext/Classical.choice/Quot.sound; the statements in lean/Props/C05.lean; the correspondence harness and its generators (differential testing bounds the tie); the implementation's base64/base32/time modules (the model's own base64 codec is proved). 25 record classes (LOC, APL, SVCB/HTTPS, NSEC/NSEC3/CSYNC, RRSIG/SIG, KEY, CERT, HIP, IPSECKEY, AMTRELAY, WKS, GPOS, NSAP, NID/L64, EUI48/64, DSYNC, TKEY, TSIG, OPT) are covered by the oracle only; CAA, URI and Chaosnet A are modelled and tied but have no round-trip lemma; name fields are proved for the configurations that do not rewrite names (no origin, or absolute names with relativize=False) and tied/oracle-checked for the others. Per-type status is written to the evidence (coverage.type_status).",
+    "technique": "Lean 4 proof (escape and tokenizer automata, combinator round trips lifted over a schema table, IPv6 zero-run selection by exhaustive case analysis of the 256 zero patterns + list theory for split/join) + model-vs-implementation correspondence + direct oracle",
     "design_ref": "DESIGN.md §7 C05",
 }
